@@ -194,11 +194,14 @@ class ObjContent(Element):
     @renderer
     def docstringToc(self, request: IRequest, tag: Tag) -> Union[Tag, str]:
         
-        toc = util.DocGetter().get_toc(self.ob)
-
         # Only show the TOC if visiting the object page itself, in other words, the TOC do dot show up
         # in the object's parent section or any other subsections except the main one.
-        if toc and self.documented_ob is self.ob:
+        if self.documented_ob is not self.ob:
+            # Do not even build it: building the table of contents gives the titles of the docstring
+            # their back-references, which must point to entries of the table shown on the object's own page.
+            return ""
+        toc = util.DocGetter().get_toc(self.ob)
+        if toc:
             return tag.fillSlots(titles=toc)
         else:
             return ""
